@@ -422,6 +422,24 @@ func (s *Server) Get(req *spb.GetRequest, stream spb.GRIBI_GetServer) error {
 
 	go s.doGet(req, msgCh, doneCh, stopCh, errCh)
 
+	// stopProducer is called when this function returns before doGet has reported that it
+	// is done. doGet may be blocked writing a message (whilst it holds the read lock of a
+	// network instance RIB), or be between two polls of stopCh, so its channels are drained
+	// and it is told to stop until it signals that it has exited.
+	stopProducer := func() {
+		go func() {
+			for {
+				select {
+				case stopCh <- struct{}{}:
+				case <-msgCh:
+				case <-errCh:
+				case <-doneCh:
+					return
+				}
+			}
+		}()
+	}
+
 	var done bool
 
 	for !done {
@@ -429,9 +447,11 @@ func (s *Server) Get(req *spb.GetRequest, stream spb.GRIBI_GetServer) error {
 		case <-doneCh:
 			done = true
 		case err := <-errCh:
+			stopProducer()
 			return status.Errorf(codes.Internal, "cannot generate GetResponse, %v", err)
 		case r := <-msgCh:
 			if err := stream.Send(r); err != nil {
+				stopProducer()
 				return status.Errorf(codes.Internal, "cannot write message to client channel, %v", err)
 			}
 		}
